@@ -981,7 +981,9 @@ Proof. intros H. destruct l; [destruct H|]. unfold accepted_simple. now apply na
 Lemma scope_cands_url p c n k i : In i (scope_cands p c n k) -> has_url p i = true.
 Proof.
   unfold scope_cands. destruct (get_ent p c); [|intros []].
-  destruct k as [k|]; [destruct (comp_kind k); [|intros []]|]; intros H; now apply matching_in in H.
+  destruct k as [k|]; [destruct (comp_kind k);
+                       [|destruct (assoc_get (lower k) doc_item_kinds); [|intros []]]|];
+    intros H; now apply matching_in in H.
 Qed.
 Lemma project_cands_url p n k i : In i (project_cands p n k) -> has_url p i = true.
 Proof.
@@ -1040,6 +1042,85 @@ Proof.
   - apply (Proj []). intros l [].
 Qed.
 
+(* a word that is only an item kind ("bound", "variable", "final", ...) on the first part: the
+   contents of the context, then of its parent, are searched for an item of that kind; the
+   project-wide search knows no such word *)
+Lemma scope_level_item p c e n k a :
+  get_ent p c = Some e -> urls_ok p = true -> ids_ok p = true ->
+  comp_kind k = None -> assoc_get (lower k) doc_item_kinds = Some a ->
+  match find_child_quiet p c n (Some k) with
+  | Found i => In i (scope_cands p c n (Some k))
+  | NotFound => scope_cands p c n (Some k) = []
+  | _ => False
+  end.
+Proof.
+  intros G U I CK IK. pose proof (get_ent_in _ _ _ G) as [Hin _].
+  assert (SL : assoc_get (lower k) scope_link_types = None).
+  { destruct (assoc_get (lower k) scope_link_types) as [attrs|] eqn:E; auto.
+    destruct (kind_tables_scope_complete _ (assoc_get_In _ _ _ E)) as [c' Hc']. cbn [fst] in Hc'.
+    unfold comp_kind in CK.
+    destruct (assoc_get (lower k) doc_comp_kinds) eqn:D; [discriminate|].
+    exfalso. exact (assoc_get_none_not_in _ _ _ D Hc'). }
+  pose proof (kind_tables_item _ _ (assoc_get_In _ _ _ IK)) as SB.
+  unfold find_child_quiet, find_scope, scope_cands, find_child. rewrite SL, G, CK, IK, SB.
+  unfold contents_of. cbn [flat_map]. rewrite app_nil_r.
+  destruct (assoc_get a (e_attrs e)) as [[ids|j| |]|] eqn:A; cbn [aval_ids];
+    try (apply filter_nil; intros i []).
+  - destruct (find_in p n ids) as [i|] eqn:F.
+    + apply find_in_some in F as [F1 F2]. apply matching_in. split; auto. split; auto.
+      apply has_url_lt; auto. eapply contents_lt; eauto.
+      apply in_contents. exists a, (AList ids). split; auto. now apply assoc_get_In.
+    + apply filter_nil. intros i Hi. now rewrite (find_in_none _ _ _ F i Hi).
+  - destruct (name_eqb n (name_of p j)) eqn:E.
+    + apply matching_in. split; [now left|]. split; auto.
+      apply has_url_lt; auto. eapply contents_lt; eauto.
+      apply in_contents. exists a, (ASingle j). split; [now apply assoc_get_In|now left].
+    + apply filter_nil. intros i [<-|[]]. now rewrite E.
+Qed.
+
+Theorem lookup_item_kind_word p ctx r k a :
+  r_child r = None -> r_kind r = Some k ->
+  comp_kind k = None -> assoc_get (lower k) doc_item_kinds = Some a ->
+  match ctx with
+  | None => True
+  | Some c => exists e, get_ent p c = Some e /\
+                        match e_parent e with Some par => exists e', get_ent p par = Some e' | None => True end
+  end ->
+  urls_ok p = true -> ids_ok p = true ->
+  spec_accepts p ctx r (render p ctx r) = true.
+Proof.
+  intros Hc Hk CK IK Hctx U I.
+  assert (KD : kind_documented (r_kind r) = false) by (rewrite Hk; unfold kind_documented; now rewrite CK).
+  assert (PC : project_cands p (r_name r) (r_kind r) = []).
+  { rewrite Hk. unfold project_cands. now rewrite CK. }
+  rewrite Hk in PC.
+  assert (PF : project_step p r = RWarn).
+  { unfold project_step, project_find. rewrite Hk.
+    assert (assoc_get (lower k) link_types = None) as -> by (rewrite <- comp_kind_table; exact CK).
+    reflexivity. }
+  unfold spec_accepts. rewrite KD, Hc. cbn [negb].
+  unfold comp_cands, render, convert_link, ctx_step. rewrite Hc.
+  destruct ctx as [c|].
+  - destruct Hctx as (e & G & Hpar). unfold levels, scope_find. rewrite G, Hk, PC.
+    pose proof (scope_level_item p c e (r_name r) k a G U I CK IK) as L1.
+    destruct (find_child_quiet p c (r_name r) (Some k)) as [i| | |]; try contradiction.
+    + rewrite (finish_cand p i (scope_cands_url _ _ _ _ _ L1)).
+      cbn [first_nonempty app settle].
+      destruct (scope_cands p c (r_name r) (Some k)) eqn:S; [destruct L1|].
+      now apply nat_in_In.
+    + rewrite L1. destruct (e_parent e) as [par|].
+      * destruct Hpar as (e' & G').
+        pose proof (scope_level_item p par e' (r_name r) k a G' U I CK IK) as L2.
+        destruct (find_child_quiet p par (r_name r) (Some k)) as [i| | |]; try contradiction.
+        -- rewrite (finish_cand p i (scope_cands_url _ _ _ _ _ L2)).
+           cbn [first_nonempty app settle].
+           destruct (scope_cands p par (r_name r) (Some k)) eqn:S; [destruct L2|].
+           now apply nat_in_In.
+        -- rewrite L2, PF. reflexivity.
+      * rewrite PF. reflexivity.
+  - unfold levels. rewrite Hk, PC, PF. reflexivity.
+Qed.
+
 (* the former witnesses of the repaired defects, kept as regression examples *)
 Definition w_proj : proj :=
   {| p_ents :=
@@ -1092,3 +1173,24 @@ Proof.
   - eexists. reflexivity.
   - repeat split; reflexivity.
 Qed.
+
+(* non-vacuity of lookup_item_kind_word: [[area(bound)]] in the documentation of the type
+   component n_sides is the bound procedure area of the enclosing type (found in the parent) *)
+Definition w_proj2 : proj :=
+  {| p_ents :=
+       [ {| e_name := s "shape"; e_attrs := [(s "variables", AList [1]); (s "boundprocs", AList [2])];
+            e_parent := None; e_has_url := true |};
+         {| e_name := s "n_sides"; e_attrs := []; e_parent := Some 0; e_has_url := true |};
+         {| e_name := s "area"; e_attrs := [(s "bindings", AList [])]; e_parent := Some 0;
+            e_has_url := true |} ];
+     p_cols := [(s "types", [0])] |}.
+Definition w_ref3 : ref :=
+  {| r_name := s "area"; r_kind := Some (s "bound"); r_child := None; r_ckind := None |}.
+Example ex_item_kind_word :
+  r_child w_ref3 = None /\ comp_kind (s "bound") = None /\
+  assoc_get (lower (s "bound")) doc_item_kinds = Some (s "boundprocs") /\
+  urls_ok w_proj2 = true /\ ids_ok w_proj2 = true /\
+  render w_proj2 (Some 1) w_ref3 = RLink 2 /\ comp_cands w_proj2 (Some 1) w_ref3 = [2] /\
+  spec_accepts w_proj2 (Some 1) w_ref3 RPlain = false /\
+  render w_proj2 None w_ref3 = RPlain /\ spec_accepts w_proj2 None w_ref3 RPlain = true.
+Proof. repeat split; reflexivity. Qed.
